@@ -200,3 +200,31 @@ package error
 // the predeclared error interface: Error() has no side effect
 //@ iface error.Error(self) (s)
 //@   modifies nothing
+
+//@ func InvalidIDFormat
+//@   modifies nothing
+//@   ensures result != nil && fresh(result) && result.Code == ErrInvalidIDFormat
+
+//@ func IDNumberONLY
+//@   modifies nothing
+//@   ensures result != nil && fresh(result) && result.Code == ErrIDNumberONLY
+
+//@ func IDNameONLY
+//@   modifies nothing
+//@   ensures result != nil && fresh(result) && result.Code == ErrIDNameONLY
+
+//@ func InvalidFmtTemplate
+//@   modifies nothing
+//@   ensures result != nil && fresh(result) && result.Code == ErrInvalidFmtTemplate
+
+//@ func UnmatchFmtParams
+//@   modifies nothing
+//@   ensures result != nil && fresh(result) && result.Code == ErrUnmatchFmtParams
+
+//@ func FileNotFound
+//@   modifies nothing
+//@   ensures result != nil && fresh(result) && result.Code == ErrFileNotFound
+
+//@ func ReadVarInputError
+//@   modifies nothing
+//@   ensures result != nil && fresh(result) && result.Code == ErrReadVarInput
